@@ -108,6 +108,17 @@ void accepted(Ctx& ctx, int depth, int32_t w, int32_t h, int palForm, uint32_t i
 	fl.InvertScanLines();
 	if (!(fl == f)) { bad("double-flip-not-identity", ""); return; }
 	ctx.transition(2);
+	// file-name overloads
+	{
+		std::string dir = ctx.scratch(), in = dir + "/in.bmp", out = dir + "/out.bmp";
+		mc::writeFile(in, bytes);
+		BitmapFile ff; std::vector<uint8_t> wf;
+		auto o3 = mc::guarded([&] { ff = BitmapFile::ReadIndexed(in); ff.WriteIndexed(out); wf = mc::readFile(out); });
+		if (o3.cls != 'R') { bad("file-overloads-throw", o3.what); return; }
+		if (!(ff == f)) { bad("file-overload-read-differs-from-stream-read", ""); return; }
+		if (wf != w1) { bad("file-overload-write-differs-from-stream-write", ""); return; }
+		ctx.count("file-overloads/round-trips");
+	}
 	ctx.state(); ctx.trace();
 	ctx.count(palForm == 0 || b.usedColors == (1u << depth) ? "accepted/full-palette" : "accepted/partial-palette");
 	if (h < 0) ctx.count("accepted/top-down"); if (h == 0 || w == 0) ctx.count("accepted/empty-image");
@@ -151,7 +162,7 @@ void build(Ctx& ctx)
 	gCases.clear(); gWidths.clear(); gHeights.clear();
 	for (int32_t w = 0; w <= 66; ++w) gWidths.push_back(w);
 	for (int32_t h = -3; h <= 3; ++h) gHeights.push_back(h);
-	if (ctx.thorough) { for (int32_t w : { 127, 128, 129, 1023, 1024, 1025 }) gWidths.push_back(w); for (int32_t h : { 31, 32, 33, -31, -32, -33 }) gHeights.push_back(h); }
+	if (ctx.thorough) { for (int32_t w = 67; w <= 130; ++w) gWidths.push_back(w); for (int32_t w : { 255, 256, 257, 1023, 1024, 1025, 4095, 4097 }) gWidths.push_back(w); for (int32_t h : { 4, 5, 8, 9, 31, 32, 33, -4, -5, -8, -9, -31, -32, -33 }) gHeights.push_back(h); }
 	for (int d : { 1, 4, 8 }) for (std::size_t i = 0; i < gWidths.size(); i += 6) { gCases.push_back({ 0, d, int32_t(i), int32_t(std::min(i + 6, gWidths.size())) }); gCases.push_back({ 1, d, int32_t(i), int32_t(std::min(i + 6, gWidths.size())) }); }
 	gCases.push_back({ 2, 0, 0, 0 });
 	gCases.push_back({ 3, 0, 0, 0 });
